@@ -139,7 +139,8 @@ func (g *TxGen) Next(sm *fsm.StateMachine) ([]byte, string) {
 			{fsm.ParamSpaceVal, fsm.ParamMaxCommitteeSize, []uint64{2, 3, 100}},
 			{fsm.ParamSpaceVal, fsm.ParamMinimumStakeForValidators, []uint64{0, 500, 2000}},
 			{fsm.ParamSpaceGov, fsm.ParamDAORewardPercentage, []uint64{0, 5, 50}},
-		}[g.R.Intn(7)]
+			{fsm.ParamSpaceCons, fsm.ParamBlockSize, []uint64{1000000, 2000000, 1, 100}}, // 1 and 100 are rejected (below the header size) after the field was set
+		}[g.R.Intn(8)]
 		v := p.vals[g.R.Intn(len(p.vals))]
 		if g.R.Chance(30) { // the rejected-after-mutation combination, see below
 			p.space, p.key, v = fsm.ParamSpaceVal, fsm.ParamUnstakingBlocks, 0
